@@ -34,7 +34,7 @@ SPLIT_ACCUMULATORS = {
     ("more_ops::op_subtract", 4): [["add_assign", "number_from_u8"], ["add_assign", "number_from_u8", "random_range"]],
     ("more_ops::op_subtract", 7): [["number_from_u8", "sub_assign"], ["number_from_u8", "random_range", "sub_assign"]],
     ("more_ops::op_subtract", 8): [["new_number"], ["add", "new_number"]],
-    ("more_ops::binop_reduction", 1): [["<indirect>"], ["<indirect>"]],
+    ("more_ops::binop_reduction", 1): [["<indirect>"], ["<indirect>", "branches:1"]],
     ("more_ops::binop_reduction", 2): [[], ["<indirect>"]],
 }
 
@@ -194,7 +194,17 @@ def run(ctx):
             key = f"{k}|{FLAG}#{cnt[k]}"
             site = f"{g.file}:{t['line']}"
             if f.path in AUDITED:
-                ck.ob("R11", key, True, "audited exception: " + AUDITED[f.path], site=site, detail="audited")
+                okaud, det = True, "audited"
+                if f.path == "chia_dialect::ChiaDialect::new":
+                    # the audit holds only while the constructor does exactly this
+                    muts = []
+                    for b2, t2 in f.calls():
+                        c2 = t2.get("callee") or ""
+                        if "ClvmFlags>::" in c2 and not c2.endswith("::contains"):
+                            muts.append((c2.split("::")[-1], show(f.expr_op(t2["args"][1])) if len(t2["args"]) > 1 else ""))
+                    okaud = muts == [("remove", "LIMITS")]
+                    det = {"flag mutations under NEW_COST_MODEL": muts}
+                ck.ob("R11", key, okaud, "audited exception: " + AUDITED[f.path], site=site, detail=det)
                 continue
             problems = []
             for which in ("set", "clear"):
@@ -237,7 +247,11 @@ def run(ctx):
                     for kind, desc, b in fr.region_effects(g, exclusive_region(g, t, which)):
                         if kind == "call" and not is_cost_helper(desc):
                             ops.add(desc.split("::")[-1])
-                    sig.append(sorted(ops))
+                    # conditional application inside the arm is part of the signature ("branches:N")
+                    reg = exclusive_region(g, t, which)
+                    nbr = sum(1 for b in reg if g.term(b)["k"] == "switch" and not g.is_error_block(b)
+                              and not (g.discr_variants(b) and set(g.discr_variants(b).values()) <= {"Continue", "Break"}))
+                    sig.append(sorted(ops) + ([f"branches:{nbr}"] if nbr else []))
                 want = SPLIT_ACCUMULATORS[(k, cnt[k])]
                 ck.ob("R11", key, sig == want,
                       "audited split-accumulator region: both models apply the same value operation (new: single accumulator; classic: split accumulators, all read by the result)",
